@@ -51,6 +51,9 @@ def run(ck, repo: Repo, tier: str):
     sc0 = Scope(None, mi, {**env0}, AQ)
     min_new = nf.poly(parse_expr(f"min(OLDMIN, episode_return)"), Scope(None, mi, {**env0, "OLDMIN": old[MIN]}, AQ), None)
     seen_kinds = set()
+    _mx = [n for n in cfg.nodes if n.kind == "stmt" and isinstance(n.ast, ast.Assign) and dotted(n.ast.targets[0]) == M]
+    _deps = [b for b, lab in cfg.control_deps(_mx[0].id) if cfg.nodes[b].kind == "test" and lab is True] if len(_mx) == 1 else []
+    SWITCH_NODE = _deps[0] if _deps else -1
     for p in paths:
         pe = PathEval(nf, cfg, mi, AQ, env0)
         pe.store = dict(old)
@@ -69,7 +72,7 @@ def run(ck, repo: Repo, tier: str):
         cut = next((lab for t, lab in conds if t == f"{MIN} < {BEST}"), None)
         full = next((lab for t, lab in conds if t == f"{E} == {M}"), None)
         rel = next((lab for t, lab in conds if t == "training_steps > 0"), None)
-        switch = next((lab for t, lab in conds if t.startswith("epoch < steps_before_checkpointing <=")), None)
+        switch = next((lab for (t, lab), (nid, _l) in zip(conds, [(n_, l_) for n_, l_ in p if cfg.nodes[n_].kind == "test"]) if nid == SWITCH_NODE), None)
         ck.need(cut is not None and rel is not None, f"{AQ}: branch structure changed (unrecognised idiom): {conds}")
         kind = "cut" if cut else ("full" if full else "continue")
         label = f"{kind}/{'release' if rel else 'keep'}{'/switch' if switch else ''}"
@@ -119,12 +122,18 @@ def run(ck, repo: Repo, tier: str):
             ck.ob("R4-window-switch", AQ, f"path:{label}:no-switch", ok, f"max_episodes_before_update = {mx.canon()}", "" if ok else "the window size may only change at the switch", where)
     for want in ("cut/release", "full/release", "continue/keep"):
         ck.ob("R3-checkpoint-guard", AQ, f"has-path:{want}", any(k.startswith(want) for k in seen_kinds), f"paths: {sorted(seen_kinds)}", "" if any(k.startswith(want) for k in seen_kinds) else f"no `{want}` path", loc(mi, fn))
-    # the switch condition text and its position before the reset
-    sw = [n for n in cfg.nodes if n.kind == "test" and ast.unparse(n.ast.test).startswith("epoch < steps_before_checkpointing <=")]
-    ck.need(len(sw) == 1, f"{AQ}: window-switch test not found")
-    txt = " ".join(ast.unparse(sw[0].ast.test).split())
-    ok = txt == f"epoch < steps_before_checkpointing <= epoch + {T}"
-    ck.ob("R4-window-switch", AQ, "condition", ok, txt, "" if ok else f"must be epoch < steps_before_checkpointing <= epoch + {T}", loc(mi, sw[0].ast))
+    # the switch condition (the test guarding the write of max_episodes_before_update) and its position before the reset
+    mx_writes = [n for n in cfg.nodes if n.kind == "stmt" and isinstance(n.ast, ast.Assign) and dotted(n.ast.targets[0]) == M]
+    ck.need(len(mx_writes) == 1, f"{AQ}: expected one write of max_episodes_before_update")
+    deps = [b for b, lab in cfg.control_deps(mx_writes[0].id) if cfg.nodes[b].kind == "test" and lab is True]
+    ck.need(deps, f"{AQ}: window-size write is unconditional (unrecognised idiom)")
+    sw = [cfg.nodes[deps[0]]]
+    ssc = Scope(None, mi, {}, AQ)
+    got = nf.poly(sw[0].ast.test, ssc, None).canon()
+    want = nf.poly(parse_expr(f"epoch < steps_before_checkpointing <= epoch + {T}"), ssc, None).canon()
+    ok = got == want
+    ck.ob("R4-window-switch", AQ, "condition", ok, f"if {' '.join(ast.unparse(sw[0].ast.test).split())[:120]}",
+          "" if ok else f"the switch must happen exactly when the training-iteration count crosses the threshold: epoch < steps_before_checkpointing <= epoch + {T} (normal form `{want}`), got `{got[:120]}`", loc(mi, sw[0].ast))
     resets = [n for n in cfg.nodes if n.kind == "stmt" and isinstance(n.ast, ast.Assign) and dotted(n.ast.targets[0]) == T]
     ok = len(resets) == 1 and cfg.dominates(sw[0].id, resets[0].id)
     ck.ob("R4-window-switch", AQ, "evaluated-before-reset", ok, "switch test precedes the counter reset", "" if ok else "the switch must be evaluated with the window's step count, i.e. before the counter is zeroed", loc(mi, sw[0].ast))
@@ -187,10 +196,18 @@ def run(ck, repo: Repo, tier: str):
     g = [t for bnode, lab in cfg.control_deps(m.id)[:1] for t, v in cfg._lits(cfg.nodes[bnode].ast.test, lab, bnode) if v]
     ok = g == ["update_checkpoint"] and dotted(x.args[0]) == "policy"
     ck.ob("R5-release-loop", TQ, "checkpoint-copy", ok, f"`{short(x)}` under {g}", "" if ok else "the checkpoint must be overwritten with the current policy, and only when the assessment returned the flag", loc(mi, x))
+    flag_defs = cfg.defs_of(m.id, "update_checkpoint")
+    fresh = len(flag_defs) == 1 and flag_defs[0].node == n.id and cfg.dominates(n.id, m.id)
+    ck.ob("R5-release-loop", TQ, "flag-from-this-assessment", fresh, f"update_checkpoint read at the copy is defined at line(s) {sorted(cfg.nodes[d.node].lineno for d in flag_defs)}",
+          "" if fresh else "the flag read at the copy is not (only) the result of the assessment of this step: a stale True from an earlier window overwrites the checkpoint with an unassessed policy", loc(mi, x))
 
 
 _C, _T = "rl_blox/blox/checkpointing.py", "rl_blox/algorithm/td7.py"
 MUTANTS = [
+    {"id": "c15-switch-condition-ge-only", "file": _C, "rule": "R4", "find": "            epoch\n            < steps_before_checkpointing\n            <= epoch + checkpoint_state.timesteps_since_upate\n", "replace": "            steps_before_checkpointing\n            <= epoch + checkpoint_state.timesteps_since_upate\n"},
+    {"id": "c15-td7-stale-flag", "file": _T, "rule": "R5", "edits": [("    checkpoint_state = CheckpointState()\n", "    checkpoint_state = CheckpointState()\n    update_checkpoint = False\n"),
+        ("                if update_checkpoint:\n                    hard_target_net_update(policy, checkpoint)\n                    epochs = {\n                        \"actor_checkpoint\": checkpoint.actor,\n                        \"fixed_embedding_checkpoint\": checkpoint.embedding,\n                    }\n                    if logger is not None:\n                        for k, v in epochs.items():\n                            logger.record_epoch(k, v, step=step + 1)\n                if logger is not None:\n                    for k, v in checkpoint_state.__dict__.items():\n                        logger.record_stat(k, v, step=step + 1)\n",
+         "                if logger is not None:\n                    for k, v in checkpoint_state.__dict__.items():\n                        logger.record_stat(k, v, step=step + 1)\n\n            if update_checkpoint:\n                hard_target_net_update(policy, checkpoint)\n")]},
     {"id": "c15-release-minus-one", "file": _C, "rule": "R1", "nth": 0, "find": "        training_steps = checkpoint_state.timesteps_since_upate\n", "replace": "        training_steps = checkpoint_state.timesteps_since_upate - 1\n"},
     {"id": "c15-release-episode-steps", "file": _C, "rule": "R1", "nth": 1, "find": "        training_steps = checkpoint_state.timesteps_since_upate\n", "replace": "        training_steps = steps_per_episode\n"},
     {"id": "c15-counter-not-reset", "file": _C, "rule": "R2", "find": "        checkpoint_state.timesteps_since_upate = 0\n", "replace": ""},
@@ -209,6 +226,7 @@ MUTANTS = [
     {"id": "c15-td7-return-for-length", "file": _T, "rule": "R5", "find": "                        steps_per_episode,\n                        accumulated_reward,\n                        epoch,", "replace": "                        accumulated_reward,\n                        steps_per_episode,\n                        epoch,"},
 ]
 BENIGN = [
+    {"id": "c15-b-switch-unchained", "file": _C, "find": "            epoch\n            < steps_before_checkpointing\n            <= epoch + checkpoint_state.timesteps_since_upate\n", "replace": "            epoch < steps_before_checkpointing\n            and epoch + checkpoint_state.timesteps_since_upate >= steps_before_checkpointing\n"},
     {"id": "c15-b-local-ts", "file": _C, "nth": 0, "find": "        training_steps = checkpoint_state.timesteps_since_upate\n", "replace": "        collected = checkpoint_state.timesteps_since_upate\n        training_steps = collected\n"},
     {"id": "c15-b-reset-order", "file": _C, "find": "        checkpoint_state.episodes_since_udpate = 0\n        checkpoint_state.timesteps_since_upate = 0\n", "replace": "        checkpoint_state.timesteps_since_upate = 0\n        checkpoint_state.episodes_since_udpate = 0\n"},
     {"id": "c15-b-td7-range0", "file": _T, "find": "            for delayed_train_step_idx in range(1, training_steps + 1):", "replace": "            for delayed_train_step_idx in range(2, training_steps + 2):"},
